@@ -133,13 +133,10 @@ fn out_signature_programs() -> Vec<c01::Space> {
 
 pub fn run(ctx: &Ctx) -> i32 {
     let mut rep = Report::new("exploration");
-    rep.rule = "a function counts when the type checker accepted it, the Metal generator produced a syntax tree without a diagnostic and at least one argument tuple was evaluated by both interpreters; distinct = different (function source, prelude)".into();
+    rep.rule = "a function counts when the type checker accepted it, the Metal generator produced a syntax tree without a diagnostic and at least one argument tuple was evaluated by both interpreters; distinct = different (prelude, function source)".into();
     let opts = Opts { cap: 100, verbose: false, only_args: None };
     let backends = [Backend::Msl];
-    let mut all: Vec<c01::Space> = c01::spaces(ctx).into_iter().filter_map(without_double).collect();
-    all.extend(out_signature_programs());
-    let graphs = if ctx.quick() { call_graph_programs(3, 2) } else { call_graph_programs(4, 3) };
-    let n_graphs = graphs.len();
+    let all: Vec<c01::Space> = c01::spaces(ctx).into_iter().filter_map(without_double).collect();
     // the ordinary spaces: units of 40 functions
     for sp in &all {
         let n_units = sp.cases.len().div_ceil(UNIT) as u64;
@@ -150,27 +147,16 @@ pub fn run(ctx: &Ctx) -> i32 {
             acc.add("functions_generated", cs.len() as u64);
             c01::check_cases(&sp.prelude, &cs, &backends, acc, &opts);
         });
-        if sp.name.starts_with("outsig_") {
-            rep.acc.merge(r.acc);
-            if !r.completed {
-                rep.exhaustive = false;
-                rep.caps_hit.push("out signatures: time budget reached".into());
-            }
-        } else {
-            rep.cov(&format!("functions_{}", sp.name), Json::Int(sp.cases.len() as i64));
-            rep.absorb(&sp.name, r);
-        }
+        rep.cov(&format!("functions_{}", sp.name), Json::Int(sp.cases.len() as i64));
+        rep.absorb(&sp.name, r);
     }
-    // call graphs: one program per index
-    let r = run_par(ctx, n_graphs as u64, 16, |i, acc| {
-        let sp = &graphs[i as usize];
-        let cs: Vec<&Case> = sp.cases.iter().collect();
-        acc.add("functions_generated", cs.len() as u64);
-        acc.count("call_graph_programs");
-        c01::check_cases(&sp.prelude, &cs, &backends, acc, &opts);
-    });
-    rep.cov("call_graph_programs", Json::Int(n_graphs as i64));
-    rep.absorb("call_graphs", r);
+    // whole programs: out / inout signatures, global aliasing, positions of global uses and calls, struct casts, call graphs
+    let mut programs = out_signature_programs();
+    programs.extend(c01::program_spaces(ctx).into_iter().filter_map(without_double));
+    c01::run_programs(ctx, "whole_programs", &programs, &backends, &opts, &mut rep);
+    let graphs = if ctx.quick() { call_graph_programs(3, 2) } else { call_graph_programs(4, 3) };
+    rep.cov("call_graph_programs", Json::Int(graphs.len() as i64));
+    c01::run_programs(ctx, "call_graphs", &graphs, &backends, &opts, &mut rep);
     rep.cov("targets", Json::Arr(vec!["Msl (no-pipeline mode)".into()]));
     rep.assumptions.push("Metal semantics are those of exec::c_interp in its Metal dialect over the generator's syntax tree (references bind the argument object, metal:: spellings mapped by an independently written table, tag-dispatched trampoline overloads selected by arity); nothing checks that the text is accepted by a real Metal compiler".into());
     rep.assumptions.push("same value grid, the same skipping of cases that are unspecified in the source, and the same shared semantic decisions S1-S11 as C01; double is excluded (Metal rejects it), programs the Metal backend rejects with a diagnostic are outside the property and counted (export_rejected)".into());
